@@ -161,6 +161,8 @@ val tl : 'a1 list -> 'a1 list
 
 val nth : nat -> 'a1 list -> 'a1 -> 'a1
 
+val nth_error : 'a1 list -> nat -> 'a1 option
+
 val last : 'a1 list -> 'a1 -> 'a1
 
 val rev : 'a1 list -> 'a1 list
@@ -171,17 +173,25 @@ val map : ('a1 -> 'a2) -> 'a1 list -> 'a2 list
 
 val flat_map : ('a1 -> 'a2 list) -> 'a1 list -> 'a2 list
 
+val fold_left : ('a1 -> 'a2 -> 'a1) -> 'a2 list -> 'a1 -> 'a1
+
 val fold_right : ('a2 -> 'a1 -> 'a1) -> 'a1 -> 'a2 list -> 'a1
 
 val existsb : ('a1 -> bool) -> 'a1 list -> bool
 
 val forallb : ('a1 -> bool) -> 'a1 list -> bool
 
+val filter : ('a1 -> bool) -> 'a1 list -> 'a1 list
+
 val find : ('a1 -> bool) -> 'a1 list -> 'a1 option
+
+val combine : 'a1 list -> 'a2 list -> ('a1 * 'a2) list
 
 val list_prod : 'a1 list -> 'a2 list -> ('a1 * 'a2) list
 
 val skipn : nat -> 'a1 list -> 'a1 list
+
+val seq : nat -> nat -> nat list
 
 val repeat : 'a1 -> nat -> 'a1 list
 
@@ -218,6 +228,8 @@ val of_LZ : z list -> sx
 
 val of_pair : ('a1 -> sx) -> ('a2 -> sx) -> ('a1 * 'a2) -> sx
 
+val of_option : ('a1 -> sx) -> 'a1 option -> sx
+
 val sx_ok : sx -> sx
 
 val sx_err : z -> sx
@@ -233,93 +245,6 @@ val z_neg : z -> z
 val z_is_zero : z -> bool
 
 val z_is_neg : z -> bool
-
-type str = z list
-
-val str_eqb : str -> str -> bool
-
-val is_upper : z -> bool
-
-val is_digit : z -> bool
-
-val span : (z -> bool) -> str -> str * str
-
-val is_nil : 'a1 list -> bool
-
-val is_ensembl : str -> bool
-
-val before_dot : str -> str
-
-val lookup : str -> (str * str) list -> str option
-
-type oname =
-| Name of str
-| Placeholder of nat
-
-val oname_eqb : oname -> oname -> bool
-
-val map_loop : (str * str) list -> nat -> str list -> oname list * nat
-
-type 'a gres =
-| GOk of 'a
-| GErr of z
-
-val e_ALL_UNMAPPED : z
-
-val e_DUP_MAPPED : z
-
-val e_DUP_CELL : z
-
-val e_DUP_GENE : z
-
-val e_EMPTY_GENE : z
-
-val map_gene_identifiers :
-  (str * str) list -> str list -> (oname list * nat) gres
-
-val has_dup : ('a1 -> 'a1 -> bool) -> 'a1 list -> bool
-
-val onames_eq_strs : oname list -> str list -> bool
-
-val gene_mapping : str list -> oname list -> (str * oname) list
-
-type vresult = { v_new_file : bool; v_genes : oname list;
-                 v_mapping : (str * oname) list; v_n_mapped : nat;
-                 v_rounded : bool }
-
-val validate :
-  (str * str) list -> str list -> str list -> bool -> bool -> bool -> vresult
-  gres
-
-val sx_str : sx -> str option
-
-val of_oname : oname -> sx
-
-val sx_tbl : sx -> (str * str) list option
-
-val run_is_ensembl : sx -> sx
-
-val run_validate : sx -> sx
-
-type rat = z * z
-
-val round_half_even : rat -> z
-
-val candidates : (z * z) list
-
-val fits : z -> z -> (z * z) -> bool
-
-val first_fit : z -> z -> (z * z) list -> nat -> nat option
-
-val choose_int_dtype : rat -> rat -> nat option
-
-val round_values : rat list -> z list
-
-val sx_rat : sx -> rat option
-
-val run_choose : sx -> sx
-
-val run_round : sx -> sx
 
 val zinsert : z -> z list -> z list
 
@@ -341,7 +266,7 @@ val nodes : level -> node list
 
 val children_of : level -> node -> z list
 
-val is_nil0 : 'a1 list -> bool
+val is_nil : 'a1 list -> bool
 
 val all_have_parent : level -> level -> bool
 
@@ -358,7 +283,7 @@ val leaf_level : tree -> level
 
 val leaf_rows : tree -> z list
 
-val validate0 : tree -> bool
+val validate : tree -> bool
 
 val parent_of : level -> node -> node option
 
@@ -432,7 +357,7 @@ val of_tres : ('a1 -> sx) -> 'a1 tres -> sx
 
 val of_pairsZ : (z * z) list -> sx
 
-val run_validate0 : sx -> sx
+val run_validate : sx -> sx
 
 val run_as_leaves : sx -> sx
 
@@ -453,5 +378,191 @@ val run_all_parents : sx -> sx
 val run_drop_cells : sx -> sx
 
 val run_is_equal : sx -> sx
+
+type frac = z * z
+
+type rec0 = { asg : node; prob : frac; corr : frac option;
+              runners : ((node * frac) * frac) list; agg : frac }
+
+type 'a outcome =
+| Ok of 'a
+| ErrNoChildren
+| ErrNoCorrAbove
+| ErrShape
+
+val upd : 'a1 list -> nat -> 'a1 -> 'a1 list
+
+val pick : 'a1 list -> nat list -> 'a1 list
+
+type pa_t = (node * nat list) list
+
+type table = rec0 option list list
+
+val distinct : node list -> node list
+
+val regroup : nat list -> rec0 list -> pa_t
+
+val write_back : table -> nat -> nat list -> rec0 list -> table
+
+val one : frac
+
+val trivial_rec : node -> rec0
+
+type 'rng state = ('rng * table) * pa_t
+
+val visit :
+  ('a2 -> (nat * node) option -> node list -> 'a1 list -> rec0 list * 'a2) ->
+  'a1 list -> nat -> (nat * node) option -> node list -> nat list -> 'a2
+  state -> 'a2 state outcome
+
+val fold_outcome :
+  ('a1 -> 'a2 -> 'a1 outcome) -> 'a2 list -> 'a1 -> 'a1 outcome
+
+val lookup_pa : pa_t -> node -> nat list
+
+val do_level :
+  ('a2 -> (nat * node) option -> node list -> 'a1 list -> rec0 list * 'a2) ->
+  tree -> 'a1 list -> nat -> 'a2 state -> 'a2 state outcome
+
+val levels_from :
+  ('a2 -> (nat * node) option -> node list -> 'a1 list -> rec0 list * 'a2) ->
+  tree -> 'a1 list -> nat -> nat -> 'a2 state -> 'a2 state outcome
+
+val inherit0 : frac option -> rec0 option list -> rec0 list outcome
+
+val fmul : frac -> frac -> frac
+
+val running : frac -> rec0 list -> rec0 list
+
+val map_outcome : ('a1 -> 'a2 outcome) -> 'a1 list -> 'a2 list outcome
+
+val empty_table : tree -> 'a1 list -> table
+
+val run_type_assignment :
+  ('a2 -> (nat * node) option -> node list -> 'a1 list -> rec0 list * 'a2) ->
+  tree -> 'a1 list -> 'a2 -> (rec0 list list * 'a2) outcome
+
+val path_ok : tree -> rec0 list -> bool
+
+val spec_routing : tree -> nat -> rec0 list list -> bool
+
+val sx_frac : sx -> frac option
+
+val of_frac : frac -> sx
+
+val sx_runner : sx -> ((node * frac) * frac) option
+
+val of_runner : ((node * frac) * frac) -> sx
+
+val sx_rec : sx -> rec0 option
+
+val of_rec : rec0 -> sx
+
+val pkey : (nat * node) option -> z
+
+type ctable = ((z * z) * rec0) list
+
+val clookup : z -> z -> ctable -> rec0 option
+
+val table_decide :
+  ctable -> nat -> (nat * node) option -> node list -> z list -> rec0
+  list * nat
+
+val sx_centry : sx -> ((z * z) * rec0) option
+
+val of_outcome : ('a1 -> sx) -> 'a1 outcome -> sx
+
+val run_rta : sx -> sx
+
+val sx_rec_out : sx -> rec0 option
+
+val run_spec_routing : sx -> sx
+
+type str = z list
+
+val str_eqb : str -> str -> bool
+
+val is_upper : z -> bool
+
+val is_digit : z -> bool
+
+val span : (z -> bool) -> str -> str * str
+
+val is_nil0 : 'a1 list -> bool
+
+val is_ensembl : str -> bool
+
+val before_dot : str -> str
+
+val lookup : str -> (str * str) list -> str option
+
+type oname =
+| Name of str
+| Placeholder of nat
+
+val oname_eqb : oname -> oname -> bool
+
+val map_loop : (str * str) list -> nat -> str list -> oname list * nat
+
+type 'a gres =
+| GOk of 'a
+| GErr of z
+
+val e_ALL_UNMAPPED : z
+
+val e_DUP_MAPPED : z
+
+val e_DUP_CELL : z
+
+val e_DUP_GENE : z
+
+val e_EMPTY_GENE : z
+
+val map_gene_identifiers :
+  (str * str) list -> str list -> (oname list * nat) gres
+
+val has_dup : ('a1 -> 'a1 -> bool) -> 'a1 list -> bool
+
+val onames_eq_strs : oname list -> str list -> bool
+
+val gene_mapping : str list -> oname list -> (str * oname) list
+
+type vresult = { v_new_file : bool; v_genes : oname list;
+                 v_mapping : (str * oname) list; v_n_mapped : nat;
+                 v_rounded : bool }
+
+val validate0 :
+  (str * str) list -> str list -> str list -> bool -> bool -> bool -> vresult
+  gres
+
+val sx_str : sx -> str option
+
+val of_oname : oname -> sx
+
+val sx_tbl : sx -> (str * str) list option
+
+val run_is_ensembl : sx -> sx
+
+val run_validate0 : sx -> sx
+
+type rat = z * z
+
+val round_half_even : rat -> z
+
+val candidates : (z * z) list
+
+val fits : z -> z -> (z * z) -> bool
+
+val first_fit : z -> z -> (z * z) list -> nat -> nat option
+
+val choose_int_dtype : rat -> rat -> nat option
+
+val round_values : rat list -> z list
+
+val sx_rat : sx -> rat option
+
+val run_choose : sx -> sx
+
+val run_round : sx -> sx
 
 val dispatch : z -> sx -> sx
